@@ -1,5 +1,79 @@
-import Gobptree.Ops
-namespace Gobptree
-theorem C03_placeholder : True := trivial
-end Gobptree
-#print axioms Gobptree.C03_placeholder
+/-
+  C03 — concurrent Insert/Update/Delete/Search are linearizable.
+
+  Model: Conc.lean (small-step, lock-acquisition granularity).  Status: the FULL
+  statement is kept below as a definition (`C03_linearizable_statement`) and is NOT yet
+  proved in Lean; it is decided on the implementation side by the linearizability
+  checker over all schedules of a catalogue and tens of thousands of random schedules,
+  and the model is tied to the code by the event-log replay.  Proved here: the
+  sequential specialisation (every single-threaded history refines the map: C01), and
+  the facts about the model that the linearisation-point argument rests on: a Search
+  never modifies the tree under any schedule, and every thread's held locks are those
+  of its program position (C09/C10).
+-/
+import Gobptree.Proofs.ConcReach
+import Gobptree.Run
+
+namespace Gobptree.Conc
+open Gobptree
+
+variable {K V : Type}
+
+/-! ### histories and linearizability (Herlihy–Wing) -/
+
+/-- a completed point operation extracted from the log: thread, index, the operation, its
+    result, positions of invocation and response in the chronological log -/
+structure HOp (K V : Type) where
+  tid : Nat
+  idx : Nat
+  op  : Op K V
+  out : Out V
+  inv : Nat
+  ret : Nat
+
+/-- a total order of the operations is a linearisation if it respects real time and is a
+    legal sequential history of the map specification from the initial contents -/
+def IsLinearization (lt : K → K → Bool) (init : List (K × V)) (ops : List (HOp K V)) (ord : List (HOp K V)) : Prop :=
+  List.Perm ops ord ∧
+  (∀ i j (hi : i < ord.length) (hj : j < ord.length), ord[i].ret < ord[j].inv → i < j) ∧
+  (Spec.run lt init (ord.map (·.op))).2 = ord.map (·.out)
+
+/-- FULL statement (not proved): for every order ≥ 4, initial tree satisfying the
+    invariant, program family of point operations and schedule, the completed operations
+    of the history have a linearisation. `history` extracts the `HOp`s from the log. -/
+def C03_linearizable_statement (history : Config Nat Nat → List (HOp Nat Nat)) : Prop :=
+  ∀ (P : Params Nat) (tree : Tree Nat Nat) (progs : List (List (COp Nat Nat))) (c : Config Nat Nat),
+    4 ≤ P.order → P.order % 2 = 0 → tree.order = P.order →
+    Reachable (Config.init P tree progs) c → c.dead = false →
+    ∃ ord, IsLinearization P.lt tree.abs (history c) ord
+
+/-! ### proved: Search is read-only under every schedule -/
+
+theorem roArrive_tree (P : Params K) (t : Nat) (s : St K V) (sc : Bool) (key : K) (hold : Lk) (n : Nat) :
+    (roArrive P t s sc key hold n).1.tree = s.tree := by
+  unfold roArrive
+  simp only
+  split
+  · rfl
+  · split
+    · split
+      · rfl
+      · split <;> rfl
+    · split
+      · rfl
+      · split <;> rfl
+
+/-- **C03 (partial): Search and NewScanner never write.** Resuming a Search/NewScanner at
+    any of its park positions leaves the whole tree (root pointer, every node) unchanged,
+    whatever the other threads did in between. -/
+theorem C03_search_readonly_partial (P : Params K) (t : Nat) (s : St K V) (sc : Bool) (key : K) :
+    (∀ hold want, (resume P t s (.roNode sc key hold want)).1.tree = s.tree) ∧
+    (resume P t s (.roTree sc key)).1.tree = s.tree := by
+  refine ⟨fun hold want => ?_, rfl⟩
+  simp only [resume]
+  rw [roArrive_tree]
+  rfl
+
+end Gobptree.Conc
+
+#print axioms Gobptree.Conc.C03_search_readonly_partial
